@@ -5,6 +5,7 @@ HERE = os.path.dirname(os.path.abspath(__file__))
 sys.path.insert(0, HERE)
 from vlib import manifest_data as m
 checks, na = [], []
+CLAIMED = set(open(os.path.join(HERE, "vlib", "claimed.txt")).read().split())
 for i in range(1, 21):
     pid = "C%02d" % i
     try:
@@ -12,7 +13,7 @@ for i in range(1, 21):
         ent = getattr(mod, "MANIFEST", None)
     except ModuleNotFoundError:
         ent = None
-    if ent and getattr(mod, "CLAIMED", True):
+    if ent and pid in CLAIMED:
         checks.append(m.check(pid, ent["text"], m.COMMON_NOTE + ent["note"], ent["technique"], ent.get("design_ref", "7/" + pid)))
     else:
         na.append({"property_id": pid, "reason": (getattr(mod, "NOT_CLAIMED_REASON", None) if ent is not None or 'mod' in dir() and mod else None) or
